@@ -657,6 +657,22 @@ func (c *CEnv) applyGhost(pk *packages.Package, gh *Ghost, e *CExpr) Val {
 	return Val{"(" + sym + " " + strings.Join(args, " ") + ")", rt, sortOf(rt)}
 }
 
+// cexprHasCall: does the expression apply any named function (predicate, ghost, spec function)?
+func cexprHasCall(e *CExpr) bool {
+	if e == nil {
+		return false
+	}
+	if e.Op == "call" {
+		return true
+	}
+	for _, a := range e.Args {
+		if cexprHasCall(a) {
+			return true
+		}
+	}
+	return false
+}
+
 func cexprMentions(e *CExpr, name string) bool {
 	if e == nil {
 		return false
@@ -684,7 +700,8 @@ func (g *FuncGen) emitGhostAxioms(pk *packages.Package, name string) {
 		return
 	}
 	for i, ax := range ps.Axioms {
-		if !cexprMentions(ax.Expr, name) {
+		// an axiom or lemma over operators only (no predicate, ghost or spec function named) belongs to every use of the package's contracts
+		if !cexprMentions(ax.Expr, name) && cexprHasCall(ax.Expr) {
 			continue
 		}
 		key := fmt.Sprintf("axiom:%s:%d", pkgShort(pk.Types), i)
